@@ -39,7 +39,7 @@ def raw_blocks(rng, n):
     hs = []
     for i in range(n):
         h = histgen.gen_history(rng, nops=rng.choice([3, 8, 15]), comp="none", out=["file", "fd"][i % 2], sizes=[2, 5, 10000],
-                                rot=(i % 2 == 0), hints_mode="all")
+                                rot=(i % 2 == 0), hints_mode="all", allow_edit=False)
         pools = histgen.Pools(rng)
         bps = h["preamble"]["bps"]
         ops = []
@@ -54,7 +54,7 @@ def raw_blocks(rng, n):
                 ops.append(raw)
         ops.append(histgen.gen_raw_block(rng, pools, 0, bps[0]))
         h["ops"] = ops
-        hs.append(h)
+        hs.append(histgen.respect_header(h))
     return hs
 
 
